@@ -5,7 +5,13 @@ Program (JSON, re-executable):
   {"qspec": [["reg", name, size] | ["loose", n] | ["alias", name, [qubit indices]] ...],
    "cspec": [["reg", name, size] | ["loose", n] ...],
    "instrs": [[name, [params], [qubit indices], [clbit indices]] ...]}
-  names: standard gate names, "cut_wire", "measure", "reset", "barrier", "move", "qpd_cx".
+  names: standard gate names, "cut_wire", "measure", "reset", "barrier", "move", "qpd_cx",
+         "m2" (opaque Instruction on 2 qubits and 2 clbits), "x_if" (x conditioned on clbit params[0] == params[1]).
+   optional: "pre_call": k   the function is called once (result dropped) when only the first k instructions exist,
+                             the rest is appended to the SAME circuit object, then the recorded call is made
+             "nested": true  the recorded call is fn(fn(circuit)): its input is the first call's output
+             "e2e": true     cut_wires -> expand_observables -> partition_problem -> generate_cutting_experiments(inf)
+                             -> ExactSampler -> reconstruct_expectation_values is run as well (clause f)
 """
 from __future__ import annotations
 
@@ -13,13 +19,15 @@ import itertools
 import json
 
 import numpy as np
-from qiskit.circuit import QuantumCircuit, QuantumRegister, ClassicalRegister, Qubit, Clbit
+from qiskit.circuit import QuantumCircuit, QuantumRegister, ClassicalRegister, Qubit, Clbit, Instruction
 from qiskit.circuit import library as lib
 from qiskit.quantum_info import Pauli, PauliList
 
 from qiskit_addon_cutting.instructions import CutWire, Move
 from qiskit_addon_cutting.qpd import QPDBasis, TwoQubitQPDGate
 from qiskit_addon_cutting.wire_cutting_transforms import cut_wires, _transform_cuts_to_moves, expand_observables
+from qiskit_addon_cutting import partition_problem, generate_cutting_experiments, reconstruct_expectation_values
+from qiskit_addon_cutting.utils.simulation import ExactSampler
 
 from common import CaseWriter, Res, Raw, Interner, call_canon
 from circ import CircCtx, coq_circ
@@ -49,7 +57,29 @@ def prog_nc(prog):
     return sum(s[2] if s[0] == "reg" else s[1] for s in prog["cspec"])
 
 
-def build_circuit(prog):
+def append_instrs(qc, instrs):
+    for name, params, qs, cs in instrs:
+        if name == "cut_wire":
+            qc.append(CutWire(), qs)
+        elif name == "measure":
+            qc.measure(qs[0], cs[0])
+        elif name == "reset":
+            qc.reset(qs[0])
+        elif name == "barrier":
+            qc.barrier(*qs)
+        elif name == "move":
+            qc.append(Move(), qs)
+        elif name == "qpd_cx":
+            qc.append(TwoQubitQPDGate.from_instruction(lib.CXGate()), qs)
+        elif name == "m2":
+            qc.append(Instruction("m2", 2, 2, []), qs, cs)
+        elif name == "x_if":
+            qc.x(qs[0]).c_if(qc.clbits[int(params[0])], int(params[1]))
+        else:
+            qc.append(GATES[name](*params), qs)
+
+
+def build_circuit(prog, upto=None):
     qc = QuantumCircuit()
     for s in prog["qspec"]:
         if s[0] == "reg":
@@ -64,21 +94,7 @@ def build_circuit(prog):
             qc.add_register(ClassicalRegister(s[2], s[1]))
         else:
             qc.add_bits([Clbit() for _ in range(s[1])])
-    for name, params, qs, cs in prog["instrs"]:
-        if name == "cut_wire":
-            qc.append(CutWire(), qs)
-        elif name == "measure":
-            qc.measure(qs[0], cs[0])
-        elif name == "reset":
-            qc.reset(qs[0])
-        elif name == "barrier":
-            qc.barrier(*qs)
-        elif name == "move":
-            qc.append(Move(), qs)
-        elif name == "qpd_cx":
-            qc.append(TwoQubitQPDGate.from_instruction(lib.CXGate()), qs)
-        else:
-            qc.append(GATES[name](*params), qs)
+    append_instrs(qc, prog["instrs"] if upto is None else prog["instrs"][:upto])
     return qc
 
 
@@ -116,6 +132,12 @@ class Canon:
         for d, inst in zip(data, qc.data):
             if d["op"][0] == "qpd2" and d["op"][1] == self.move_basis:
                 d["as"] = "move"  # a Move wrapped for cutting: executed as a Move by the oracle
+            cond = getattr(inst.operation, "condition", None)
+            if cond is not None and d["op"][0] == "gate":
+                # a condition is part of the operation: fold it into the interned gate id
+                tgt = ["clbit", self.cids(cond[0])] if isinstance(cond[0], Clbit) else ["creg", cond[0].name, [self.cids(c) for c in cond[0]]]
+                key = json.dumps([tgt, int(cond[1])])
+                d["op"] = ["gate", self.ctx.gates(("cond", d["op"][1], key)), d["op"][2] + "?" + key, d["op"][3]]
         return dict(
             qubits=[self.qids(q) for q in qc.qubits],
             qregs=[[self.names(("q", r.name)), [self.qids(q) for q in r]] for r in qc.qregs],
@@ -149,9 +171,31 @@ def _c(v):
     return coq(v)
 
 
+def run_e2e(qc, out, paulis):
+    """clause f: cut the inserted Moves and reconstruct with exact weights."""
+    obs = PauliList([mk_pauli(0, lets) for _, lets in paulis])
+    ex = expand_observables(obs, qc, out)
+    prob = partition_problem(out, observables=ex)
+    subexps, coeffs = generate_cutting_experiments(prob.subcircuits, prob.subobservables, np.inf)
+    sampler = ExactSampler()
+    results = {lab: sampler.run(c).result() for lab, c in subexps.items()}
+    vals = reconstruct_expectation_values(results, coeffs, prob.subobservables)
+    return dict(values=[float(v) for v in vals],
+                partitions={str(k): v.num_qubits for k, v in prob.subcircuits.items()},
+                subexperiments=sum(len(c) for c in subexps.values()))
+
+
 def run_case(prog, fn, paulis):
     """Execute the implementation; return the JSON case (input, recorded output, expanded paulis)."""
-    qc = build_circuit(prog)
+    if prog.get("pre_call") is not None:
+        k = prog["pre_call"]
+        qc = build_circuit(prog, upto=k)
+        call_canon(FUNCS[fn], qc)  # history: an earlier call on the same object, result dropped
+        append_instrs(qc, prog["instrs"][k:])
+    else:
+        qc = build_circuit(prog)
+    if prog.get("nested"):
+        qc = FUNCS[fn](qc)  # history: the input is itself a result
     cn = Canon(qc)
     cin = cn.circuit(qc)
     r = call_canon(FUNCS[fn], qc)
@@ -164,6 +208,9 @@ def run_case(prog, fn, paulis):
             pl = PauliList([mk_pauli(ph, lets) for ph, lets in paulis])
             e = call_canon(expand_observables, pl, qc, out)
             case["expanded"] = [e[0], [canon_pauli(p) for p in e[1]] if e[0] == "ok" else e[1]]
+            if prog.get("e2e") and fn == "cut_wires":
+                e2 = call_canon(run_e2e, qc, out, paulis)
+                case["e2e"] = [e2[0], e2[1]]
     else:
         case["impl"] = [r[0], r[1]]
         case["expanded"] = None
@@ -185,7 +232,7 @@ def unpack(case):
     return case
 
 
-def emit(w, stream, case, cn, nontrivial):
+def emit(w, stream, case, cn, nontrivial, with_expand=True):
     cin = case["input"]
     impl = case["impl"]
     exp = Res("ok", coq_result(impl[1])) if impl[0] == "ok" else Res(impl[0])
@@ -193,7 +240,7 @@ def emit(w, stream, case, cn, nontrivial):
           (cn.factory(case["fn"]), len(cin["qubits"]), cin["nc"], coq_regs(cin["qregs"]), coq_regs(cin["cregs"]),
            coq_circ(cin["data"]), exp),
           pack(case), nontrivial=nontrivial)
-    if case.get("paulis") is not None and case.get("expanded") is not None:
+    if with_expand and case.get("paulis") is not None and case.get("expanded") is not None:
         e = case["expanded"]
         eexp = Res("ok", [coq_pauli(c) for c in e[1]]) if e[0] == "ok" else Res(e[0])
         w.add(f"{stream}.expand", "chk_cut_expand",
@@ -205,21 +252,51 @@ def emit(w, stream, case, cn, nontrivial):
 # generators
 # ----------------------------------------------------------------------------------------------
 
-def rand_paulis(rng, n, k):
+def all_paulis(n):
+    return [[0, list(l)] for l in itertools.product(range(4), repeat=n) if any(l)]
+
+
+def weight1_paulis(n):
+    out = []
+    for q in range(n):
+        for l in (1, 2, 3):
+            lets = [0] * n
+            lets[q] = l
+            out.append([0, lets])
+    return out
+
+
+def rand_paulis(rng, n, k, phases=True):
     out = []
     for j in range(k):
         lets = [int(rng.integers(0, 4)) for _ in range(n)]
         if j == 0:  # one full-weight string so that every wire is read
             lets = [int(rng.integers(1, 4)) for _ in range(n)]
-        out.append([int(rng.integers(0, 4)), lets])
+        out.append([int(rng.integers(0, 4)) if phases else 0, lets])
     return out
 
 
-def rand_qspec(rng, n):
+def pick_paulis(rng, n):
+    """observable list of a generated case: all 4^n - 1 for n <= 2 (sometimes), all weight-1 strings,
+    1..3 random ones with phases; a single-observable list occurs too"""
+    r = int(rng.integers(0, 10))
+    if n <= 2 and r < 4:
+        ps = all_paulis(n)
+        ps[int(rng.integers(0, len(ps)))][0] = int(rng.integers(0, 4))
+        return ps
+    if r < 6:
+        return weight1_paulis(n) + rand_paulis(rng, n, 1)
+    return rand_paulis(rng, n, int(rng.integers(1, 4)))
+
+
+def rand_qspec(rng, n, empties=False):
     spec = []
     left = n
     ri = 0
     while left > 0:
+        if empties and rng.integers(0, 3) == 0:
+            spec.append(["reg", f"e{ri}", 0])
+            ri += 1
         s = int(rng.integers(1, left + 1))
         if rng.integers(0, 3) == 0:
             spec.append(["loose", s])
@@ -227,17 +304,21 @@ def rand_qspec(rng, n):
             spec.append(["reg", f"r{ri}", s])
             ri += 1
         left -= s
+    if empties and rng.integers(0, 2) == 0:
+        spec.append(["reg", f"e{ri}", 0])
     return spec
 
 
-def rand_cspec(rng, allow=True):
+def rand_cspec(rng, allow=True, rich=False):
     spec = []
-    if not allow or rng.integers(0, 2) == 0:
+    if not allow or (not rich and rng.integers(0, 2) == 0):
         return spec
-    for i in range(int(rng.integers(0, 3))):
-        spec.append(["reg", f"c{i}", int(rng.integers(1, 3))])
+    for i in range(int(rng.integers(2, 5)) if rich else int(rng.integers(0, 3))):
+        spec.append(["reg", f"c{i}", int(rng.integers(0 if rich else 1, 3))])
     if rng.integers(0, 2):
         spec.append(["loose", int(rng.integers(1, 3))])
+    if rich and prog_nc(dict(cspec=spec)) < 2:
+        spec.append(["reg", "cz", 2])
     return spec
 
 
@@ -259,29 +340,45 @@ def rand_gate(rng, n):
     return [name, params, [int(rng.integers(0, n))], []]
 
 
-def gen_exhaustive(maxlen):
-    alphabet = [["h", [], [0], []], ["sx", [], [1], []], ["cx", [], [0, 1], []],
-                ["cut_wire", [], [0], []], ["cut_wire", [], [1], []]]
+EXH5 = [["ry", [0.7], [0], []], ["rx", [1.1], [1], []], ["cx", [], [0, 1], []],
+        ["cut_wire", [], [0], []], ["cut_wire", [], [1], []]]
+EXH6 = EXH5 + [["measure", [], [0], [1]]]
+
+
+def gen_exhaustive(maxlen, maxlen6):
+    """all programs up to maxlen over the 5 gate/marker letters; up to maxlen6 also with `measure 0 -> c[1]`"""
     for L in range(0, maxlen + 1):
-        for p in itertools.product(range(5), repeat=L):
-            yield dict(qspec=[["reg", "q", 2]], cspec=[], instrs=[alphabet[i] for i in p])
+        for p in itertools.product(range(6 if L <= maxlen6 else 5), repeat=L):
+            if 5 in p:
+                yield dict(qspec=[["reg", "q", 2]], cspec=[["reg", "c", 2]], instrs=[EXH6[i] for i in p])
+            else:
+                yield dict(qspec=[["reg", "q", 2]], cspec=[], instrs=[EXH5[i] for i in p])
 
 
 def gen_skeletons(rng):
     for n in range(1, 5):
         for k in range(0, 5):
             for seq in itertools.product(range(n), repeat=k):
+                cspec = rand_cspec(rng, allow=bool(rng.integers(0, 2)))
+                nc = prog_nc(dict(cspec=cspec))
                 instrs = []
                 if rng.integers(0, 10) < 7:
                     for q in range(n):
                         instrs.append(["ry", [0.4 + 0.5 * q], [q], []])
-                for q in seq:
+                budget = [2]
+
+                def filler():
                     for _ in range(int(rng.integers(0, 3))):
-                        instrs.append(rand_gate(rng, n))
+                        if nc > 0 and budget[0] > 0 and rng.integers(0, 4) == 0:
+                            budget[0] -= 1
+                            instrs.append(["measure", [], [int(rng.integers(0, n))], [int(rng.integers(0, nc))]])
+                        else:
+                            instrs.append(rand_gate(rng, n))
+                for q in seq:
+                    filler()
                     instrs.append(["cut_wire", [], [q], []])
-                for _ in range(int(rng.integers(0, 3))):
-                    instrs.append(rand_gate(rng, n))
-                yield dict(qspec=rand_qspec(rng, n), cspec=rand_cspec(rng, allow=bool(rng.integers(0, 2))), instrs=instrs)
+                filler()
+                yield dict(qspec=rand_qspec(rng, n), cspec=cspec, instrs=instrs)
 
 
 def gen_random(rng):
@@ -292,13 +389,17 @@ def gen_random(rng):
     markers = 0
     maxm = int(rng.integers(0, 5))
     branching = 0
+    cutq = []
     for _ in range(L):
         r = int(rng.integers(0, 20))
         if r < 6 and markers < maxm:
-            # bias towards re-cutting an already cut qubit after touching another one
-            prog["instrs"].append(["cut_wire", [], [int(rng.integers(0, n))], []])
+            # bias towards re-cutting an already cut qubit after another qubit has been cut
+            again = [q for q in cutq[:-1] if q != cutq[-1]]
+            q = int(again[int(rng.integers(0, len(again)))]) if again and rng.integers(0, 2) else int(rng.integers(0, n))
+            prog["instrs"].append(["cut_wire", [], [q], []])
+            cutq.append(q)
             markers += 1
-        elif r == 6 and nc > 0 and branching < 3:
+        elif r in (6, 10) and nc > 0 and branching < 3:
             prog["instrs"].append(["measure", [], [int(rng.integers(0, n))], [int(rng.integers(0, nc))]])
             branching += 1
         elif r == 7 and branching < 3:
@@ -312,6 +413,67 @@ def gen_random(rng):
             branching += 1
         else:
             prog["instrs"].append(rand_gate(rng, n))
+    return prog
+
+
+def gen_opaque(rng):
+    """operations the simulator cannot execute: two-clbit instruction with non-ascending clbits, conditional gates,
+    barriers on permuted subsets, pre-placed gate cuts; empty registers, three and more classical registers"""
+    n = int(rng.integers(2, 5))
+    prog = dict(qspec=rand_qspec(rng, n, empties=True), cspec=rand_cspec(rng, rich=True), instrs=[])
+    nc = prog_nc(prog)
+    markers = 0
+    for _ in range(int(rng.integers(3, 11))):
+        r = int(rng.integers(0, 12))
+        if r < 4 and markers < 4:
+            prog["instrs"].append(["cut_wire", [], [int(rng.integers(0, n))], []])
+            markers += 1
+        elif r < 6:
+            qs = [int(q) for q in rng.permutation(n)[:2]]
+            cs = [int(c) for c in rng.permutation(nc)[:2]]
+            if rng.integers(0, 2) and cs[0] < cs[1]:
+                cs = cs[::-1]
+            prog["instrs"].append(["m2", [], qs, cs])
+        elif r < 8:
+            prog["instrs"].append(["x_if", [int(rng.integers(0, nc)), int(rng.integers(0, 2))], [int(rng.integers(0, n))], []])
+        elif r == 8:
+            m = int(rng.integers(1, n + 1))
+            prog["instrs"].append(["barrier", [], [int(q) for q in rng.permutation(n)[:m]], []])
+        elif r == 9:
+            prog["instrs"].append(["qpd_cx", [], [int(q) for q in rng.permutation(n)[:2]], []])
+        else:
+            prog["instrs"].append(rand_gate(rng, n))
+    return prog
+
+
+def gen_hist(rng):
+    """histories: an earlier call on the same circuit object / the result fed back in"""
+    n = int(rng.integers(1, 4))
+    prog = dict(qspec=rand_qspec(rng, n), cspec=[], instrs=[["ry", [0.4 + 0.5 * q], [q], []] for q in range(n)])
+    for _ in range(int(rng.integers(1, 4))):
+        for _ in range(int(rng.integers(0, 3))):
+            prog["instrs"].append(rand_gate(rng, n))
+        prog["instrs"].append(["cut_wire", [], [int(rng.integers(0, n))], []])
+    prog["instrs"].append(rand_gate(rng, n))
+    if rng.integers(0, 3) == 0:
+        prog["nested"] = True
+    else:
+        # the earlier call sees a strict prefix; at least one marker and one gate are appended afterwards
+        cuts = [i for i, ins in enumerate(prog["instrs"]) if ins[0] == "cut_wire"]
+        prog["pre_call"] = int(rng.integers(n, cuts[-1] + 1))
+    return prog
+
+
+def gen_e2e(rng):
+    """small circuits without classical bits, 1..2 markers, for cut-and-reconstruct"""
+    n = int(rng.integers(1, 4))
+    prog = dict(qspec=rand_qspec(rng, n), cspec=[], instrs=[["ry", [0.4 + 0.5 * q], [q], []] for q in range(n)], e2e=True)
+    for _ in range(int(rng.integers(1, 3))):
+        for _ in range(int(rng.integers(1, 3))):
+            prog["instrs"].append(rand_gate(rng, n))
+        prog["instrs"].append(["cut_wire", [], [int(rng.integers(0, n))], []])
+    for _ in range(int(rng.integers(1, 3))):
+        prog["instrs"].append(rand_gate(rng, n))
     return prog
 
 
@@ -329,6 +491,8 @@ def gen_edge(rng):
     # overlapping registers
     yield dict(qspec=[["reg", "a", 3], ["alias", "b", [2, 0]]], cspec=[],
                instrs=[["h", [], [0], []], cut(0), ["cx", [], [0, 2], []], cut(2), cut(0), ["x", [], [1], []]])
+    yield dict(qspec=[["reg", "a", 2], ["loose", 1], ["alias", "b", [1, 2]], ["alias", "c", [0, 1, 2]]], cspec=[],
+               instrs=[["ry", [0.6], [1], []], cut(1), ["cx", [], [1, 2], []], cut(2), cut(1), ["cx", [], [2, 0], []]])
     # pre-placed gate cut and a labelled barrier travel along
     yield dict(qspec=[["reg", "a", 2], ["reg", "b", 1]], cspec=[],
                instrs=[["h", [], [0], []], ["qpd_cx", [], [0, 1], []], cut(1), ["barrier", [], [0, 1, 2], []],
@@ -339,6 +503,58 @@ def gen_edge(rng):
     # measurement into a late classical bit (F8)
     yield dict(qspec=[["reg", "a", 2]], cspec=[["reg", "c", 3]],
                instrs=[["h", [], [0], []], cut(0), ["measure", [], [0], [2]], ["measure", [], [1], [1]]])
+    # empty registers, four classical registers, two-clbit instruction with descending clbits, conditions
+    yield dict(qspec=[["reg", "e", 0], ["reg", "a", 2], ["reg", "f", 0]],
+               cspec=[["reg", "z", 0], ["reg", "c", 2], ["reg", "d", 1], ["reg", "g", 1]],
+               instrs=[["h", [], [0], []], cut(0), ["m2", [], [1, 0], [2, 0]], ["x_if", [3, 1], [1], []], cut(1), ["x_if", [0, 0], [0], []]])
+
+
+# ----------------------------------------------------------------------------------------------
+# reference used ONLY to decide whether a case is "clean" for the judge_accepts_clean_case contract
+# ----------------------------------------------------------------------------------------------
+
+def agrees_with_reference(case):
+    """True iff the recorded output is what the modelled (repaired) behaviour produces; mirrors Model/CutWires.v.
+    Used only to exempt cases that the Coq comparison is going to flag anyway from the clean-case contract."""
+    impl = case["impl"]
+    if impl[0] != "ok":
+        return False
+    cin, out = case["input"], impl[1]
+    n = len(cin["qubits"])
+    freq = [0] * n
+    for d in cin["data"]:
+        if d["op"][0] == "cut_wire":
+            freq[d["qs"][0]] += 1
+    qubits, mapping, fresh = [], [], n
+    for q in range(n):
+        mapping.append(len(qubits))
+        qubits += list(range(fresh, fresh + freq[q])) + [q]
+        fresh += freq[q]
+    if out["qubits"] != qubits or out["qregs"] != cin["qregs"] or out["cregs"] != cin["cregs"] or out["nc"] != cin["nc"]:
+        return False
+    if len(out["data"]) != len(cin["data"]):
+        return False
+    for a, b in zip(cin["data"], out["data"]):
+        if a["op"][0] == "cut_wire":
+            g = a["qs"][0]
+            ok = (b["op"][0] == "move" if case["fn"] == "moves" else (b["op"][0] == "qpd2" and b.get("as") == "move"))
+            if not ok or b["qs"] != [mapping[g], mapping[g] + 1] or b["cs"] != []:
+                return False
+            mapping[g] += 1
+        elif b["op"] != a["op"] or b["qs"] != [mapping[q] for q in a["qs"]] or b["cs"] != a["cs"]:
+            return False
+    e = case.get("expanded")
+    if case.get("paulis") is not None:
+        if e is None or e[0] != "ok":
+            return False
+        final = [qubits.index(q) for q in range(n)]
+        for (ph, lets), got in zip(case["paulis"], e[1]):
+            want = [0] * len(qubits)
+            for q, l in enumerate(lets):
+                want[final[q]] = l
+            if got != [ph, want]:
+                return False
+    return True
 
 
 def generate(rng, tier, outdir):
@@ -347,74 +563,129 @@ def generate(rng, tier, outdir):
         "chk_cut_expand": "nat * circ * list pauli * res (list pauli)"})
     quick = tier == "quick"
     w.SHARD = 300 if quick else 1500
-    maxlen = 5 if quick else 6
+    maxlen, maxlen6 = (5, 3) if quick else (6, 5)
     n_random = 500 if quick else 6000
+    n_opaque = 150 if quick else 2000
+    n_hist = 120 if quick else 1500
+    n_e2e = 24 if quick else 80
     skel_rounds = 1 if quick else 4
     numeric_budget = [10**9 if quick else 60000]
 
-    def do(stream, prog, fns=("moves", "cut_wires"), with_paulis=True):
+    def do(stream, prog, fns=("moves", "cut_wires"), paulis="pick", expand_for=None):
         n = prog_nq(prog)
         k = sum(1 for i in prog["instrs"] if i[0] == "cut_wire")
-        paulis = rand_paulis(rng, n, 3) if (with_paulis and n > 0) else None
         for j, fn in enumerate(fns):
-            case, cn = run_case(prog, fn, paulis)
-            # cheap independent cross-check of the whole pipeline (model assumption M1) on a budget
+            qc_n = None
+            ps = None
+            if paulis == "pick":
+                # nested: the observables live on the first result's qubits, whose number is n + k
+                ps = pick_paulis(rng, n + k if prog.get("nested") else n) if (n > 0) else None
+            elif paulis is not None:
+                ps = paulis
+            case, cn = run_case(prog, fn, ps)
             if numeric_budget[0] > 0:
                 numeric_budget[0] -= 1
-                v = judge(case)
+                clean = agrees_with_reference(case)
+                try:
+                    v = judge(case)
+                except Exception as e:  # noqa: BLE001
+                    v = dict(violates=None, detail=f"judge raised {type(e).__name__}: {e}")
                 case["numeric"] = v["violates"]
-                w.count("oracle.verdict_on_generated_case", "violates" if v["violates"] else "holds")
-            emit(w, stream, case, cn, nontrivial=(k > 0))
+                w.count("oracle.verdict_on_generated_case",
+                        ("clean:" if clean else "disagrees-with-reference:") + ("raised" if v["violates"] is None else "violates" if v["violates"] else "holds"))
+                if clean:
+                    # the oracle must accept every case on which the implementation does what the model proves correct:
+                    # a failure here is a false alarm of judge or a failure of modelling assumption M1
+                    w.contract("judge_accepts_clean_case", v["violates"] is False)
+                    if v["violates"] is not False and len(w.notes) < 5:
+                        w.notes.append(f"judge flagged a clean case: {fn} {json.dumps(prog)} : {v['detail']}")
+            if expand_for is not None and fn != expand_for:
+                case2 = dict(case)
+                case2["paulis_not_compared"] = True
+                emit(w, stream, case2, cn, nontrivial=(k > 0), with_expand=False)
+            else:
+                emit(w, stream, case, cn, nontrivial=(k > 0))
             w.count(f"{stream}.outcome.{fn}", case["impl"][0])
+            if "e2e" in case:
+                w.count("e2e.pipeline_outcome", case["e2e"][0])
+                if case["e2e"][0] == "ok":
+                    w.count("e2e.partitions", len(case["e2e"][1]["partitions"]))
         w.count(f"{stream}.markers", k)
         w.count(f"{stream}.nq", n)
         per = {}
         order = []
-        for i in prog["instrs"]:
+        first_on_wire = last_on_wire = False
+        touched = set()
+        for idx, i in enumerate(prog["instrs"]):
             if i[0] == "cut_wire":
-                per[i[2][0]] = per.get(i[2][0], 0) + 1
-                order.append(i[2][0])
+                q = i[2][0]
+                per[q] = per.get(q, 0) + 1
+                order.append(q)
+                if q not in touched:
+                    first_on_wire = True
+                if not any(q in j[2] for j in prog["instrs"][idx + 1:]):
+                    last_on_wire = True
+            touched.update(i[2])
         runs = len([1 for a, b in zip(order, order[1:]) if a != b]) + (1 if order else 0)
         w.count(f"{stream}.interleaved_same_qubit", bool(runs > len(per)))
         w.count(f"{stream}.max_markers_on_one_qubit", max(per.values()) if per else 0)
+        w.count(f"{stream}.marker_first_on_wire", first_on_wire)
+        w.count(f"{stream}.marker_last_on_wire", last_on_wire)
+        w.count(f"{stream}.marker_is_first_instruction", bool(prog["instrs"]) and prog["instrs"][0][0] == "cut_wire")
+        w.count(f"{stream}.has_measure", any(i[0] == "measure" for i in prog["instrs"]))
 
-    # 1. exhaustive small programs (no classical bits): every interleaving of two markers kinds with gates
-    for idx, prog in enumerate(gen_exhaustive(maxlen)):
+    # 1. exhaustive small programs: every interleaving of the two marker kinds with generic gates (and a measurement)
+    P2 = all_paulis(2)
+    for idx, prog in enumerate(gen_exhaustive(maxlen, maxlen6)):
+        ps = [list(p) for p in P2]
+        ps[idx % len(ps)] = [idx % 4, ps[idx % len(ps)][1]]
         if quick and len(prog["instrs"]) == maxlen:
             # longest layer in the quick tier: alternate the two entry points (both share _transform_cut_wires)
-            do("exh", prog, fns=(("moves",), ("cut_wires",))[idx % 2])
+            do("exh", prog, fns=(("moves",), ("cut_wires",))[idx % 2], paulis=ps)
         else:
-            do("exh", prog)
-    # 2. every marker sequence of length <= 4 on 1..4 qubits, random gate filling, register layouts
+            do("exh", prog, paulis=ps, expand_for=("moves", "cut_wires")[idx % 2])
+    # 2. every marker sequence of length <= 4 on 1..4 qubits, random gate/measure filling, register layouts
     for _ in range(skel_rounds):
         for prog in gen_skeletons(rng):
             do("skel", prog)
     # 3. random longer programs with measure/reset/barrier/user Moves, classical registers
     for _ in range(n_random):
-        prog = gen_random(rng)
-        do("rand", prog)
-        w.count("rand.has_measure", any(i[0] == "measure" for i in prog["instrs"]))
-    # 4. edge cases
+        do("rand", gen_random(rng))
+    # 4. opaque operations, conditions, empty registers, many classical registers
+    for _ in range(n_opaque):
+        do("opaque", gen_opaque(rng))
+    # 5. histories
+    for _ in range(n_hist):
+        do("hist", gen_hist(rng))
+    # 6. cut the Moves and reconstruct (clause f)
+    for _ in range(n_e2e):
+        prog = gen_e2e(rng)
+        n = prog_nq(prog)
+        do("e2e", prog, fns=("cut_wires",), paulis=(all_paulis(n) if n <= 2 else weight1_paulis(n) + rand_paulis(rng, n, 4, phases=False)))
+    # 7. edge cases
     for prog in gen_edge(rng):
         do("edge", prog)
 
     return w.finish(
-        rule="exh: ALL programs of length <= %d over {h 0, sx 1, cx 0 1, cut 0, cut 1}; skel: every marker sequence of length 0..4 "
-             "over 1..4 qubits with random gate filling and random register layouts (named registers, loose bits, classical "
-             "registers); rand: random programs of length 3..14 with <= 4 markers, measure/reset/barrier/user Move; edge: hand-picked "
-             "(0 qubits, only markers, overlapping registers, pre-placed QPD gates, F1 and F8 witnesses). Every program is run through "
-             "_transform_cuts_to_moves and cut_wires (chk_cut: qubit identity order, registers, clbits, instruction list) and "
-             "expand_observables on 3 random Paulis (chk_cut_expand). non-trivial = at least one marker." % maxlen
+        rule="exh: ALL programs of length <= %d over {ry 0, rx 1, cx 0 1, cut 0, cut 1} (length <= %d also with measure 0->c[1]), all 15 "
+             "two-qubit Paulis; skel: every marker sequence of length 0..4 over 1..4 qubits with random gate/measure filling and random "
+             "register layouts (named registers, loose bits, classical registers); rand: random programs of length 3..14 with <= 4 "
+             "markers (biased to re-cut a qubit after another one), measure/reset/barrier/user Move; opaque: two-clbit instructions with "
+             "descending clbits, conditional gates, permuted barriers, pre-placed gate cuts, empty registers, 2..4 classical registers; "
+             "hist: an earlier call on the same circuit object before more markers are appended, and fn(fn(c)); e2e: cut_wires -> "
+             "expand_observables -> partition_problem -> generate(inf) -> ExactSampler -> reconstruct on small circuits; edge: hand-picked. "
+             "Every program goes through _transform_cuts_to_moves and cut_wires (chk_cut: qubit identity order, registers, clbits, "
+             "instruction list) and expand_observables (chk_cut_expand) on all 4^n-1 / all weight-1 / 1..3 random Paulis. "
+             "non-trivial = at least one marker." % (maxlen, maxlen6)
     )
 
 
 # ----------------------------------------------------------------------------------------------
-# property-level oracle: independent branch (statevector ensemble) simulator
+# property-level oracle: independent branch (statevector ensemble) simulator + wire tracking
 # ----------------------------------------------------------------------------------------------
 
 def _apply(vec, U, qs):
     k = len(qs)
-    n = vec.ndim
     Ut = np.asarray(U, dtype=complex).reshape((2,) * (2 * k))
     # Qiskit matrices: first qubit argument is the least significant bit -> axes are (q_{k-1} .. q_0)
     axes = [qs[k - 1 - j] for j in range(k)]
@@ -437,7 +708,7 @@ def _norm2(v):
 
 def simulate(n, nc, ops):
     """ops: list of (kind, payload, qubits, clbits); returns list of (clbits tuple, vector)."""
-    v0 = np.zeros((2,) * n, dtype=complex) if n > 0 else np.zeros((), dtype=complex)
+    v0 = np.zeros((2,) * n, dtype=complex)
     v0[(0,) * n] = 1.0
     branches = [((0,) * nc, v0)]
 
@@ -491,20 +762,6 @@ def pauli_stats(branches, phase, lets):
     return out
 
 
-def _ops_from_prog(prog):
-    ops = []
-    for name, params, qs, cs in prog["instrs"]:
-        if name in ("cut_wire", "barrier"):
-            ops.append(("skip", None, qs, cs))
-        elif name in ("measure", "reset", "move"):
-            ops.append((name, None, qs, cs))
-        elif name in GATES:
-            ops.append(("gate", GATES[name](*params).to_matrix(), qs, cs))
-        else:
-            return None
-    return ops
-
-
 def _ops_from_canon(data):
     ops = []
     for d in data:
@@ -515,73 +772,130 @@ def _ops_from_canon(data):
             ops.append((op[0], None, d["qs"], d["cs"]))
         elif op[0] == "qpd2" and d.get("as") == "move":
             ops.append(("move", None, d["qs"], d["cs"]))
-        elif op[0] == "gate" and op[2] in GATES:
+        elif op[0] == "gate" and op[2] in GATES and not d["cs"]:
             ops.append(("gate", GATES[op[2]](*op[3]).to_matrix(), d["qs"], d["cs"]))
         else:
             return None
     return ops
 
 
-def _opsig(op):
+def _opsig(d):
+    op = d["op"]
     if op[0] == "gate":
         return ("gate", op[2], tuple(op[3]))
     if op[0] == "barrier":
         return ("barrier",)
+    if op[0] == "qpd2":
+        return ("qpd2", d.get("as"), str(op[2:]))
     return tuple(str(x) for x in op)
+
+
+def track_wires(cin, out, fn):
+    """Independent of the model: follow where each original wire lives in the result.
+    Initially every position holds |0>, so a wire is bound to the position of its first use.  A marker on wire q must
+    be a Move from q's position to a position holding no wire (then q lives there); a kept instruction on wires qs must
+    act on exactly their current positions.  In the end wire q must sit on the original Qubit object q (that is where
+    expand_observables reads it) and no other wire may sit on an original Qubit object of an untouched wire.
+    Returns None or a description of the first problem."""
+    n = len(cin["qubits"])
+    loc = {}
+
+    def holder(p):
+        return [q for q, x in loc.items() if x == p]
+
+    def bind(q, p):
+        if q in loc:
+            return loc[q] == p
+        if holder(p):
+            return False
+        loc[q] = p
+        return True
+
+    for pos, (a, b) in enumerate(zip(cin["data"], out["data"])):
+        if a["op"][0] == "cut_wire":
+            q = a["qs"][0]
+            src, dst = b["qs"]
+            if not bind(q, src):
+                return f"instruction {pos}: Move source {src} is not where wire {q} lives ({loc.get(q)})"
+            if holder(dst):
+                return f"instruction {pos}: Move destination {dst} holds wire {holder(dst)[0]}"
+            loc[q] = dst
+        else:
+            if len(set(b["qs"])) != len(b["qs"]):
+                return f"instruction {pos}: duplicate qubit positions {b['qs']}"
+            for q, p in zip(a["qs"], b["qs"]):
+                if not bind(q, p):
+                    return f"instruction {pos} ({a['op'][0]}) acts on position {p} for wire {q}, which lives on {loc.get(q)} / position held by {holder(p)}"
+    for q in range(n):
+        final = out["qubits"].index(q)
+        if q in loc and loc[q] != final:
+            return f"wire {q} ends on position {loc[q]}, but the original qubit object is position {final}"
+        if q not in loc and holder(final):
+            return f"original qubit object {q} (position {final}) ends up holding wire {holder(final)[0]}"
+    return None
 
 
 def judge(case):
     case = unpack(case)
-    prog = case["prog"]
-    n = prog_nq(prog)
-    nc = prog_nc(prog)
-    k = sum(1 for i in prog["instrs"] if i[0] == "cut_wire")
     impl = case["impl"]
+    cin = case["input"]
+    n = len(cin["qubits"])
+    nc = cin["nc"]
+    k = sum(1 for d in cin["data"] if d["op"][0] == "cut_wire")
     if impl[0] != "ok":
         return dict(violates=True, detail=f"{case['fn']} raised: {impl[1]}")
     out = impl[1]
-    cin = case["input"]
     # --- structure: one more qubit per marker, originals / registers / instructions kept in order
     if len(out["qubits"]) != n + k:
         return dict(violates=True, detail=f"{len(out['qubits'])} qubits in the result, expected {n} + {k} markers")
-    if [t for t in out["qubits"] if t < n] != list(range(n)):
+    if [t for t in out["qubits"] if t < n] != list(range(n)) or len(set(out["qubits"])) != n + k:
         return dict(violates=True, detail=f"original qubits not kept in order: {out['qubits']}")
     if out["qregs"] != cin["qregs"] or out["cregs"] != cin["cregs"] or out["nc"] != cin["nc"] \
             or out["qreg_names"] != cin["qreg_names"] or out["creg_names"] != cin["creg_names"]:
         return dict(violates=True, detail=f"registers/clbits changed: {cin['qreg_names']},{cin['creg_names']} -> {out['qreg_names']},{out['creg_names']}")
     if len(out["data"]) != len(cin["data"]):
-        return dict(violates=True, detail="number of instructions changed")
+        return dict(violates=True, detail=f"number of instructions changed: {len(cin['data'])} -> {len(out['data'])}")
     kept_problem = None
     for pos, (a, b) in enumerate(zip(cin["data"], out["data"])):
         if a["op"][0] == "cut_wire":
             is_move = b["op"][0] == "move" if case["fn"] == "moves" else (b["op"][0] == "qpd2" and b.get("as") == "move")
-            if not is_move or len(b["qs"]) != 2:
+            if not is_move or len(b["qs"]) != 2 or b["cs"]:
                 return dict(violates=True, detail=f"instruction {pos}: marker not replaced by a Move: {b}")
         else:
-            if _opsig(a["op"]) != _opsig(b["op"]) or len(a["qs"]) != len(b["qs"]):
+            if _opsig(a) != _opsig(b) or len(a["qs"]) != len(b["qs"]):
                 return dict(violates=True, detail=f"instruction {pos} not kept: {a['op'][:3]} qs={a['qs']} cs={a['cs']} became {b['op'][:3]} qs={b['qs']} cs={b['cs']}")
             if a["cs"] != b["cs"] and not kept_problem:
                 # recorded; the simulation below shows what it does to the classical-bit statistics
                 kept_problem = (f"instruction {pos} not kept: {a['op'][0]} qs={a['qs']} clbits={a['cs']} became "
                                 f"{b['op'][0]} qs={b['qs']} clbits={b['cs']}")
-    # --- expansion of observables must succeed
+    if any(p < 0 or p >= n + k for d in out["data"] for p in d["qs"]):
+        return dict(violates=True, detail="qubit position out of range in the result")
+    # --- every instruction (barriers and opaque ones too) acts on the wires it acted on
+    tw = track_wires(cin, out, case["fn"])
+    if tw:
+        return dict(violates=True, detail=tw)
+    # --- expansion of observables must succeed and have the right shape
     exp = case.get("expanded")
     if case.get("paulis") is not None:
         if exp is None or exp[0] != "ok":
             return dict(violates=True, detail=f"expand_observables raised: {exp}")
+        if len(exp[1]) != len(case["paulis"]) or any(len(e[1]) != n + k for e in exp[1]):
+            return dict(violates=True, detail=f"expanded observables have the wrong shape: {len(exp[1])} strings of widths {[len(e[1]) for e in exp[1]]}, expected {len(case['paulis'])} of width {n + k}")
     # --- semantics
-    o1 = _ops_from_prog(prog)
+    o1 = _ops_from_canon(cin["data"])
     o2 = _ops_from_canon(out["data"])
     if o1 is None or o2 is None or case.get("paulis") is None:
         if kept_problem:
             return dict(violates=True, detail=kept_problem)
-        return dict(violates=False, detail="structure holds; semantics not simulated (opaque operations / no observable)")
+        return dict(violates=False, detail="structure and wire tracking hold; not simulated (opaque operations / no observable)")
     b1 = simulate(n, nc, o1)
     b2 = simulate(n + k, nc, o2)
     worst = 0.0
+    uncut = []
     for (ph, lets), (ph2, lets2) in zip(case["paulis"], exp[1]):
         s1 = pauli_stats(b1, ph, lets)
         s2 = pauli_stats(b2, ph2, lets2)
+        uncut.append(sum(e for _, e in s1.values()))
         for key in set(s1) | set(s2):
             p1, e1 = s1.get(key, (0.0, 0.0))
             p2, e2 = s2.get(key, (0.0, 0.0))
@@ -590,14 +904,28 @@ def judge(case):
             if d > 1e-9:
                 return dict(violates=True, detail=(kept_problem + "; " if kept_problem else "") +
                             f"observable phase={ph} letters={lets} (expanded {lets2}), classical outcome {key}: "
-                                                  f"original (prob, <P>)=({p1:.6g}, {complex(e1):.6g}) transformed ({p2:.6g}, {complex(e2):.6g})")
+                            f"original (prob, <P>)=({p1:.6g}, {complex(e1):.6g}) transformed ({p2:.6g}, {complex(e2):.6g})")
     if kept_problem:
         return dict(violates=True, detail=kept_problem + " (expectation values and outcome statistics happen to agree on this input)")
+    # --- clause f: cutting the Moves and reconstructing with exact weights returns the original values
+    if "e2e" in case:
+        e2 = case["e2e"]
+        if e2[0] != "ok":
+            return dict(violates=True, detail=f"cut-and-reconstruct pipeline raised: {e2[1]}")
+        vals = e2[1]["values"]
+        if len(vals) != len(uncut):
+            return dict(violates=True, detail=f"{len(vals)} reconstructed values for {len(uncut)} observables")
+        for (ph, lets), v, u in zip(case["paulis"], vals, uncut):
+            if abs(v - complex(u).real) > 1e-7 or abs(complex(u).imag) > 1e-9:
+                return dict(violates=True, detail=f"reconstructed <{lets}> = {v:.9g}, uncut circuit gives {complex(u).real:.9g}")
+        return dict(violates=False, detail=f"structure holds; max deviation {worst:.2e}; {len(vals)} reconstructed values agree with the uncut circuit "
+                                           f"({e2[1]['subexperiments']} subexperiments, partitions {e2[1]['partitions']})")
     return dict(violates=False, detail=f"structure holds; max deviation {worst:.2e} over {len(case['paulis'])} observables")
 
 
 def rerun(case):
     """Re-execute the implementation on the stored program (for --replay)."""
+    case = unpack(case)
     new, _ = run_case(case["prog"], case["fn"], case.get("paulis"))
     new["kind"] = case.get("kind", "cut")
     return new
